@@ -215,30 +215,84 @@ theorem mp4_tags_read_from_saved_file_patched (mem : Bool) (L : Layout) (h : L.O
       tagsPure g (annotList 0 (L.savedPatched items pad)) = .ok (some (items.map fun c => (c.name, c.body))) :=
   saved_tagsPure_patched mem L h items pad hfit htab hil hdep
 
-/-- C01 (a), end to end: on an OK layout, save item atoms the codec renders (`RItem`: text, integer and pair items, each
-`OK`), in any order `ris`, with any padding choice; then `Atoms(fileobj)` on the result, `MP4Tags.load`'s reads and mutagen's
-own reader (`Mp4R.loadTags`) give every value back under its name — the dictionary is built in the order of the file, and
-nothing lands in `_failed_atoms`.  If `MP4(fileobj)` loads the file at all (the stream info may refuse it), these are its tags.
-(Kinds proved: text, integers, pairs.  `covr`, freeform `----`, bools and `gnre` → `©gen`: the reader model is tied to /repo
-on them — `run_reader` — and C01b has their codec round trips; not composed here.) -/
+/-- C01 (a), end to end: on an OK layout, save item atoms the codec renders (`RItem`, each `OK`: text, integer, pair, cover,
+freeform and bool items — every kind `MP4Tags._render` has — and the `gnre` atom it only reads), in any order `ris`, with any
+padding choice; then `Atoms(fileobj)` on the result, `MP4Tags.load`'s reads and mutagen's own reader (`Mp4R.loadTags`) give
+every value back under its key — the dictionary is built in the order of the file (`RItem.apply`: bools are assigned, the
+others extend the list under the key), and nothing lands in `_failed_atoms`.  If `MP4(fileobj)` loads the file at all (the
+stream info may refuse it), these are its tags.  The values: `RItem.val` — identical to what was written except that a
+cover's `imageformat` other than 13/14 comes back as 13, and a `gnre` index comes back as a genre name under `©gen`. -/
 theorem mp4_save_then_load_own_reader (mem : Bool) (L : Layout) (h : L.OK) (ris : List RItem) (hris : ∀ r ∈ ris, r.OK)
     (pad : PadChoice) (hfit : wfList (L.saved (ris.map RItem.atom) pad).top)
     (hno : L.tableSteps (ris.map RItem.atom) pad = []) (hdep : depthList (L.saved (ris.map RItem.atom) pad).top ≤ 65) :
     ∃ g atoms cs, saveTags mem L.render (ilstData (ris.map RItem.atom)) pad = (none, g) ∧ Mp4C.parse g = .ok atoms ∧
       tagsPure g atoms = .ok (some cs) ∧ (∀ r, loadPure g = .ok r → r.tags = some cs) ∧
       Mp4R.loadTags (cs.map fun c => (c.1, c.2.length + 8, c.2)) {} =
-        some { items := ris.foldl (fun its r => Mp4R.addMulti r.name r.val its) [], failed := [] } := by
+        some { items := ris.foldl (fun its r => r.apply its) [], failed := [] } := by
   obtain ⟨g, h1, h2, h3⟩ := saved_tagsPure mem L h (ris.map RItem.atom) pad hfit hno hdep
   refine ⟨g, _, _, h1, h2, h3, fun r hr => loadPure_tags g _ _ h2 h3 r hr, ?_⟩
   have := loadTags_ritems ris {} hris
   simp only [List.map_map] at this ⊢
   exact this
 
-/-- … for items with pairwise different names the dictionary read back is exactly the list of `(name, value)` written -/
-theorem mp4_read_back_dict (ris : List RItem) (hn : (ris.map RItem.name).Nodup) :
-    ris.foldl (fun its r => Mp4R.addMulti r.name r.val its) [] = ris.map fun r => (r.name, r.val) := by
+/-- … for items with pairwise different keys the dictionary read back is exactly the list of `(key, value)` written -/
+theorem mp4_read_back_dict (ris : List RItem) (hn : (ris.map RItem.key).Nodup) :
+    ris.foldl (fun its r => r.apply its) [] = ris.map fun r => (r.key, r.val) := by
   have := foldl_addMulti_distinct ris [] hn (fun kv hkv => by cases hkv)
   simpa using this
+
+/-- covers, by themselves: whatever 32-bit `imageformat` `__render_cover` wrote, `__parse_cover` returns 13 (JPEG) unless it
+is 13 or 14 (PNG); the bytes are unchanged; `name` children in the atom are skipped (example below) -/
+theorem mp4_cover_format_normalised (t : Mp4R.Tags) (n : Bytes) (cs : List (Nat × Bytes)) (h : (RItem.covers n cs).OK) :
+    Mp4R.loadChild t n ((RItem.covers n cs).body.length + 8) (RItem.covers n cs).body =
+      some { t with items := Mp4R.addMulti n (.covers (cs.map fun c => (if c.1 ≠ 13 ∧ c.1 ≠ 14 then 13 else c.1, c.2))) t.items } :=
+  loadChild_ritem t (.covers n cs) h
+
+/-- freeform items, by themselves: `----` with `mean`, `name` and any number of values, each with its `version` and
+`dataformat`, is filed under `----:mean:name` with every value, version and dataformat as written -/
+theorem mp4_freeform_read_back (t : Mp4R.Tags) (mean nm : Bytes) (ds : List Mp4Tags.Data) (h : (RItem.freeform mean nm ds).OK) :
+    Mp4R.loadChild t Mp4Tags.freeformName ((Mp4R.freeformBody mean nm ds).length + 8) (Mp4R.freeformBody mean nm ds) =
+      some { t with items := Mp4R.addMulti (Mp4Tags.freeformName ++ [0x3a] ++ mean ++ [0x3a] ++ nm) (.freeform ds) t.items } :=
+  loadChild_ritem t (.freeform mean nm ds) h
+
+/-- … and that body is what the codec model of C01b (`Mp4Tags.encodeFreeform`) puts into the `----` atom -/
+theorem mp4_freeform_body_is_codec (mean nm : Bytes) (ds : List Mp4Tags.Data) :
+    Mp4Tags.encodeFreeform mean nm ds = Mp4Tags.renderAtom Mp4Tags.freeformName (Mp4R.freeformBody mean nm ds) := rfl
+
+/-- bools (`cpil`, `pgap`, `pcst`): the byte `__render_bool` writes is read as the same bool and ASSIGNED to the key -/
+theorem mp4_bool_read_back (t : Mp4R.Tags) (n : Bytes) (b : Bool) (h : Mp4R.kindOf n = some .bool) :
+    Mp4R.loadChild t n ((RItem.bool n b).body.length + 8) (RItem.bool n b).body =
+      some { t with items := Mp4R.setSingle n (.bool b) t.items } :=
+  loadChild_ritem t (.bool n b) h
+
+example : Mp4R.kindOf [0x63, 0x70, 0x69, 0x6c] = some .bool ∧ Mp4R.kindOf [0x70, 0x67, 0x61, 0x70] = some .bool ∧
+    Mp4R.kindOf [0x70, 0x63, 0x73, 0x74] = some .bool ∧ Mp4R.kindOf [0x63, 0x6f, 0x76, 0x72] = some .cover := by decide +kernel
+
+/-- `gnre` is only ever READ: the atom holds an ID3v1 genre index + 1 as a 16-bit integer, and `__parse_genre` files the
+genre's NAME as a text value under `©gen` (it extends what is there).  There is no render function for `gnre` in the
+`__atoms` table, so mutagen never writes one: after load → save the genre is a `©gen` text atom. -/
+theorem mp4_gnre_read_as_genre_name (t : Mp4R.Tags) (i : Int) (g : List Nat) (hi : -32768 ≤ i ∧ i ≤ 32767)
+    (hg : Mp4R.genreAt (i - 1) = some g) :
+    Mp4R.loadChild t Mp4R.nGnre ((RItem.genreIdx i g).body.length + 8) (RItem.genreIdx i g).body =
+      some { t with items := Mp4R.addMulti Mp4R.nGen (.text [g]) t.items } :=
+  loadChild_ritem t (.genreIdx i g) ⟨hi, hg⟩
+
+/-- … while `©gen` itself is a text atom, so write → read of `©gen` is the identity -/
+theorem mp4_gen_write_read_identity (t : Mp4R.Tags) (texts : List (List Nat))
+    (hs : ∀ x ∈ texts, ∀ c ∈ x, Utf8.Scalar c) (hl : ∀ x ∈ texts, (Utf8.encode x).length + 16 < 256 ^ 4) :
+    Mp4R.loadChild t Mp4R.nGen ((RItem.text Mp4R.nGen texts).body.length + 8) (RItem.text Mp4R.nGen texts).body =
+      some { t with items := Mp4R.addMulti Mp4R.nGen (.text texts) t.items } :=
+  loadChild_ritem t (.text Mp4R.nGen texts) ⟨Or.inr (by decide +kernel), hs, hl⟩
+
+/-- a `gnre` atom with index 18 ("Rock" is genre 17) followed by a cover atom with a `name` child in front of a PNG and a
+cover of format 0 → `©gen = ["Rock"]`, `covr = [(14, …), (13, …)]` -/
+example :
+    (Mp4R.loadTags [(Mp4R.nGnre, 26, Mp4R.itemBody [⟨0, 0, [0, 18]⟩]),
+                    ([0x63, 0x6f, 0x76, 0x72], 8 + 12 + 18 + 17,
+                      Mp4Tags.renderAtom Mp4Tags.nameName [0, 0, 0, 0] ++ Mp4R.itemBody [⟨0, 14, [1, 2]⟩, ⟨0, 0, [3]⟩])] {}).map
+        (fun t => (t.items, t.failed)) =
+      some ([(Mp4R.nGen, .text [[82, 111, 99, 107]]), ([0x63, 0x6f, 0x76, 0x72], .covers [(14, [1, 2]), (13, [3])])], []) := by
+  decide +kernel
 
 /-! ### the order of the items -/
 
@@ -255,34 +309,36 @@ theorem mp4_items_written_sorted (items : List Mp4R.SItem) (t : Mp4R.Tags) :
 /-- so the read-back holds for ANY insertion order of the dict: whatever order `d` the items were inserted in, the order
 written is `sortR d`, a permutation of `d`, and `mp4_save_then_load_own_reader` applies to it; with pairwise different
 names the dictionary read back has exactly the bindings of `d` -/
-theorem mp4_read_back_any_insertion_order (d : List (RItem × List Nat)) (hn : (d.map fun x => x.1.name).Nodup) :
-    let written := (d.mergeSort fun a b => Mp4R.itemLe ⟨a.1.name, a.2, []⟩ ⟨b.1.name, b.2, []⟩).map (·.1)
+theorem mp4_read_back_any_insertion_order (d : List (RItem × List Nat)) (hn : (d.map fun x => x.1.key).Nodup) :
+    let written := (d.mergeSort fun a b => Mp4R.itemLe ⟨a.1.key, a.2, []⟩ ⟨b.1.key, b.2, []⟩).map (·.1)
     written.Perm (d.map (·.1)) ∧
-      (written.foldl (fun its r => Mp4R.addMulti r.name r.val its) []).Perm (d.map fun x => (x.1.name, x.1.val)) := by
+      (written.foldl (fun its r => r.apply its) []).Perm (d.map fun x => (x.1.key, x.1.val)) := by
   intro written
   have hp : written.Perm (d.map (·.1)) := (List.mergeSort_perm d _).map _
   refine ⟨hp, ?_⟩
-  have hn' : (written.map RItem.name).Nodup := by
-    have : (written.map RItem.name).Perm ((d.map (·.1)).map RItem.name) := hp.map _
-    have hn2 : ((d.map (·.1)).map RItem.name).Nodup := by rw [List.map_map]; exact hn
+  have hn' : (written.map RItem.key).Nodup := by
+    have : (written.map RItem.key).Perm ((d.map (·.1)).map RItem.key) := hp.map _
+    have hn2 : ((d.map (·.1)).map RItem.key).Nodup := by rw [List.map_map]; exact hn
     exact this.nodup_iff.mpr hn2
   rw [mp4_read_back_dict written hn']
-  have h2 := hp.map (fun r => (r.name, r.val))
-  have e2 : (d.map (·.1)).map (fun r => (r.name, r.val)) = d.map fun x => (x.1.name, x.1.val) := by
+  have h2 := hp.map (fun r => (r.key, r.val))
+  have e2 : (d.map (·.1)).map (fun r => (r.key, r.val)) = d.map fun x => (x.1.key, x.1.val) := by
     rw [List.map_map]; rfl
   rw [e2] at h2
   exact h2
 
-/-- satisfiable: a title, a tempo and a track number on the example layout without a track -/
+/-- satisfiable: a title, a tempo, a track number, a cover of format 0, a freeform item with two values, a compilation flag
+and a `gnre` atom on the example layout without a track -/
 example :
     let ris : List RItem := [.text [0xa9, 0x6e, 0x61, 0x6d] [[104, 105]], .ints [0x74, 0x6d, 0x70, 0x6f] [(120, 2, [0, 120])],
-      .pairs [0x74, 0x72, 0x6b, 0x6e] true [(3, 9)]]
+      .pairs [0x74, 0x72, 0x6b, 0x6e] true [(3, 9)], .covers [0x63, 0x6f, 0x76, 0x72] [(0, [1, 2, 3])],
+      .freeform [0x61] [0x62] [⟨0, 1, [0x78]⟩, ⟨1, 13, []⟩], .bool [0x63, 0x70, 0x69, 0x6c] true, .genreIdx 18 [82, 111, 99, 107]]
     exLayout0.OK ∧ (∀ r ∈ ris, r.OK) ∧ wfList (exLayout0.saved (ris.map RItem.atom) .default).top ∧
       exLayout0.tableSteps (ris.map RItem.atom) .default = [] ∧ depthList (exLayout0.saved (ris.map RItem.atom) .default).top ≤ 65 := by
   refine ⟨by decide +kernel, ?_, by decide +kernel, by decide +kernel, by decide +kernel⟩
   intro r hr
   simp only [List.mem_cons, List.not_mem_nil, or_false] at hr
-  rcases hr with rfl | rfl | rfl
+  rcases hr with rfl | rfl | rfl | rfl | rfl | rfl | rfl
   · refine ⟨Or.inr (by decide +kernel), ?_, ?_⟩
     · intro x hx c hc
       simp only [List.mem_singleton] at hx; subst hx
@@ -293,5 +349,12 @@ example :
       decide +kernel
   · exact ⟨⟨2, by decide +kernel⟩, by intro v hv; simp only [List.mem_singleton] at hv; subst hv; decide +kernel⟩
   · exact ⟨Or.inl (by decide +kernel), by intro p hp; simp only [List.mem_singleton] at hp; subst hp; decide⟩
+  · exact ⟨by decide +kernel, by intro c hc; simp only [List.mem_singleton] at hc; subst hc; decide⟩
+  · refine ⟨?_, by decide, by decide⟩
+    intro d hd
+    simp only [List.mem_cons, List.not_mem_nil, or_false] at hd
+    rcases hd with rfl | rfl <;> exact ⟨by decide, by decide, by decide⟩
+  · show Mp4R.kindOf _ = _; decide +kernel
+  · exact ⟨by decide, by decide +kernel⟩
 
 end Mutagen.C01
